@@ -14,6 +14,7 @@ import (
 	"sync"
 
 	"golang.org/x/mod/module"
+	"golang.org/x/mod/semver"
 
 	"github.com/pgavlin/dawn/internal/project"
 	"github.com/pgavlin/dawn/internal/vcs"
@@ -231,6 +232,13 @@ func (r *Resolver) listVersions(ctx context.Context, p module.Version) ([]module
 }
 
 func (r *Resolver) FetchProject(ctx context.Context, p project.RequirementConfig) (string, error) {
+	// The download cache is keyed by the unversioned path and the version, so the version must belong to the major
+	// version named by the path. Otherwise a mis-declared requirement (path "r", version v2.1.0) would share a cache
+	// entry with "r@v2" v2.1.0 and resolve or fail depending on what has been downloaded before.
+	if _, major := project.SplitPathVersion(p.Path); project.JoinPathVersion("", major) != project.JoinPathVersion("", semver.Major(p.Version)) {
+		return "", fmt.Errorf("downloading project: version %v does not belong to %v", p.Version, p.Path)
+	}
+
 	cacheDir := filepath.Join(r.cacheDir, fmt.Sprintf("%v@%v", project.TrimPathVersion(p.Path), p.Version))
 
 	doFetch := func() (err error) {
